@@ -31,7 +31,8 @@ Inductive op : Type :=
 | OGetBy (e a : nat) (v : arg)
 | OSelect (e a : nat) (v : arg)
 | OSelectAll (e : nat)
-| OFlush | OCommit | ORollback | ONewSession.
+| OFlush | OCommit | ORollback | ONewSession
+| OFlushObj (h : nat).                    (* obj.flush(): save this object (and the created objects it refers to) now *)
 
 Inductive errkind : Type :=
 | EConstraint | ECacheIndex | EValue | EType | ETxnIntegrity | EIntegrity | ECyclic | EObjectNotFound | EMultiple
@@ -1649,6 +1650,31 @@ Definition selectall_op (sch : schema) (s : sess) (e : nat) : sess * res :=
 (* flush() / commit() / rollback() / leaving and re-entering db_session *)
 Definition flush_op (sch : schema) (s : sess) : sess * res := lift_unit (flush sch s).
 
+(* Entity.flush(): nothing to do unless the object is created / modified / marked_to_delete; `assert obj._save_pos_ is not None`,
+   `assert not cache.saved_objects`; _save_ (principals first); call_after_save_hooks empties saved_objects.  cache.modified stays set. *)
+Definition flushobj_op (sch : schema) (s : sess) (h : nat) : sess * res :=
+  match hget s h with
+  | None => (s, RErr EBadHandle)
+  | Some o =>
+    match get_obj s o with
+    | None => (s, RErr EOther)
+    | Some ob =>
+      match o_st ob with
+      | SCreated | SModified | SMarked =>
+        match o_pos ob with
+        | None => (s, RErr EAssertion)
+        | Some _ =>
+          if s_savedpend s then (s, RErr EAssertion)
+          else match save_obj (S (length (s_objs s))) sch s o [] with
+               | Ok s1 _ => (set_savedpend s1 false, ROk)
+               | Err s1 er => (s1, RErr er)
+               end
+        end
+      | _ => (s, ROk)
+      end
+    end
+  end.
+
 Definition keep_declined (s0 s1 : sess) : sess := if s_declined s0 then mark_declined s1 else s1.
 
 Definition commit_op (sch : schema) (s : sess) : sess * res :=
@@ -1686,6 +1712,7 @@ Definition step (sch : schema) (s : sess) (o : op) : sess * res :=
     | OSelect e a v => select_op sch s e a v
     | OSelectAll e => selectall_op sch s e
     | OFlush => flush_op sch s
+    | OFlushObj h => flushobj_op sch s h
     | OCommit => commit_op sch s
     | ORollback => rollback_op s
     | ONewSession => newsession_op sch s
